@@ -1,7 +1,7 @@
 #!/bin/bash
 # usage: tools/seedcheck.sh <PROP> <k> [src dir default /tmp/seed/out]
 # Confirms a seeded change (patch compiles, pinned suite passes with it, demo fails with / passes without)
-# in a scratch worktree of /repo, then runs the property's quick check against the patched tree.
+# (DEMOFLAGS=-race for demonstrations that need Go's race detector) in a scratch worktree of /repo, then runs the property's quick check against the patched tree.
 PROP=$1; K=$2; SRC=${3:-/tmp/seed/out}
 D=$SRC/$PROP/$K
 W=/tmp/sc.$PROP.$K
@@ -16,10 +16,10 @@ cp $D/demo_test.go $W/$DIR/zz_seed_demo_test.go
 export GOFLAGS=-mod=mod GOPROXY=off
 TESTNAMES=$(grep -o '^func Test[A-Za-z0-9_]*' $D/demo_test.go | sed 's/func //' | paste -sd'|')
 echo "demo dir=$DIR tests=$TESTNAMES" >> $OUT
-go test -vet=off -count=1 -run "^($TESTNAMES)\$" ./$DIR > $D/demo_clean.log 2>&1; RC_CLEAN=$?
+go test $DEMOFLAGS -vet=off -count=1 -run "^($TESTNAMES)\$" ./$DIR > $D/demo_clean.log 2>&1; RC_CLEAN=$?
 git apply $D/patch.diff || { echo "PATCH DOES NOT APPLY" >> $OUT; exit 2; }
 go build ./... >> $OUT 2>&1 || { echo "DOES NOT COMPILE" >> $OUT; }
-go test -vet=off -count=1 -run "^($TESTNAMES)\$" ./$DIR > $D/demo_patched.log 2>&1; RC_PATCHED=$?
+go test $DEMOFLAGS -vet=off -count=1 -run "^($TESTNAMES)\$" ./$DIR > $D/demo_patched.log 2>&1; RC_PATCHED=$?
 rm -f $W/$DIR/zz_seed_demo_test.go
 go test -vet=off -count=1 -timeout 25m ./... > $D/suite_confirm.log 2>&1; RC_SUITE=$?
 if [ $RC_SUITE -ne 0 ]; then
